@@ -32,6 +32,7 @@ ASSUMPTIONS = ['"grow by exactly factor per step" is checked with a relative tol
                'factor == 1 is only exercised with an explicit count (the statement restricts the default count to factor > 1)',
                'jitter bounds are evaluated in exact rational arithmetic with a 1e-12 relative allowance']
 
+SELFTEST_MUTANT = 'jitter-sign-flipped'
 REQUIRED_PROBES = ['extreme_draw_consumed', 'start_zero_stop_below_one', 'stop_within_ulps_of_exact_power']
 it = None
 
